@@ -20,7 +20,7 @@ META = {
             "gathered proposals is verified -- a proposal (n, m, s), found on the strings before the loop with REL1(all_fun[n], s, all_fun[m]), is applied only if neither n nor m was named by an earlier "
             "proposal as the function to change, so every rewritten function holds the ORIGINAL string of its reference with exactly s appended to its chain, REL1(old string, s, new string); without "
             "either half of the guard the proof fails. The chain assembly in duplicate_checker.main (`all_inv_subs = [[]] * ntot` and the loop over the rounds) is verified: the final chain of every function is the "
-            "concatenation, in round order, of the rows recorded for it in the round files (a round without a row contributes nothing; the aliased empty lists are never mutated). The writers/readers of the round files "
+            "concatenation, in round order, of the rows recorded for it in the round files (a round without a row contributes nothing; the aliased empty lists are never mutated). The writers of unique_equations_<n>.txt and matches_<n>.txt (duplicate_checker.main) and of the rewritten unique list (check_results) print exactly one line per entry, in list order. The writers/readers of the round files "
             "(all_inv_subs = [[]] * ntot with rebinding) and the per-step contract of sympy_simplify are covered by the bounded part only; the cancellation of chains is C17. "
             "The repair step: the rank-0 bookkeeping at the end of check_results is verified in three regions (which strings are appended to the unique list: pairwise distinct, never an "
             "old unique function, every un-merged function found in old_pos or among the appended ones; the map rows of the un-merged functions become the empty row, all others unchanged; "
@@ -89,6 +89,14 @@ def check(run):
     failed_all += failed
     if st == "proved" and D.canary(run, "generation/duplicate_checker.py", "main", c_dosympy.combine_rounds_contract) is False:
         raise RuntimeError("canary verified: engine vacuous on the round-combination region")
+    # the files the library consists of are written one line per entry: unique functions, matches (duplicate_checker.main), and the rewritten unique list of check_results
+    from contracts import c_generator
+    for relf, qual, frag, lists, ints in (("generation/duplicate_checker.py", "main", "unique_equations_", ["uniq_fun"], ()),
+                                          ("generation/duplicate_checker.py", "main", "matches_", ["match_idx"], ("match_idx",)),
+                                          ("generation/simplifier.py", "check_results", "unique_equations_", ["uniq_fun", "new_uniq_fun"], ())):
+        st, failed, eng = D.verify_function(run, relf, qual, (lambda qual=qual, frag=frag, lists=lists, ints=ints: c_generator.line_writer_contract(qual, frag, lists, ints=ints)),
+                                            timeout_ms=10000, tag="writer %s" % frag.rstrip("_"), note="region: the `with open(..., 'w')` block writing %s" % " + ".join(lists))
+        failed_all += failed
     lfailed0 = D.prove_lemmas(run, "do_sympy: composition with get_unique_indexes", c_dosympy.composition_lemma(), timeout_ms=20000)
     lfailed = D.prove_lemmas(run, "check_results: composition of the un-merge regions", c_checkres.composition_lemmas(), timeout_ms=20000)
     crjob = {"runname": "core_maths", "n": 4, "P_list": [1, 2] if tier == "quick" else [1, 2, 5], "ncorrupt": 6 if tier == "quick" else 12}
